@@ -440,6 +440,9 @@ pub struct NodeCfg {
     /// Build the bootstrap list with `no_bootstrap()` + `extra_bootstrap(list)` instead of
     /// `bootstrap(list)` (the two spell the same configuration).
     pub via_extra_bootstrap: bool,
+    /// Entries that are not socket addresses (a port out of range, no port at all), listed
+    /// BEFORE the real ones: they fail to resolve at once, without any name lookup.
+    pub bootstrap_junk: Vec<String>,
 }
 
 impl NodeCfg {
@@ -456,6 +459,7 @@ impl NodeCfg {
             nat: Nat::None,
             skew_micros: 0,
             via_extra_bootstrap: false,
+            bootstrap_junk: vec![],
         }
     }
     pub fn server(mut self) -> Self {
@@ -867,7 +871,7 @@ impl World {
         if cfg.server_mode {
             builder.server_mode();
         }
-        let boot: Vec<String> = cfg.bootstrap.iter().map(|a| a.to_string()).collect();
+        let boot: Vec<String> = cfg.bootstrap_junk.iter().cloned().chain(cfg.bootstrap.iter().map(|a| a.to_string())).collect();
         if cfg.via_extra_bootstrap {
             builder.no_bootstrap();
             builder.extra_bootstrap(&boot);
